@@ -103,6 +103,11 @@ def relabel(ctx, p):
     else:
         H = nets.build_H(ctx, _shape(p["shape"]), cls=xgi.SimplicialComplex if cls == "S" else None, attrs=True)[0]
     ctx.info["op"] = "convert_labels_to_integers"
+    # a pre-existing "label" attribute (e.g. from an earlier relabelling) is documented to be overwritten
+    for n in list(H._node_attr)[:1]:
+        H._node_attr[n]["label"] = ctx.fresh("oldlabel")
+    for e in list(H._edge_attr)[:1]:
+        H._edge_attr[e]["label"] = ctx.fresh("oldlabel")
     before = nets.snap(H)
     R = xgi.convert_labels_to_integers(H)
     n, m = len(before["nodes"]), len(before["edges"])
@@ -112,7 +117,9 @@ def relabel(ctx, p):
         ctx.require(nets.same(R._node_attr[i].get("label"), before["nodes"][i]), "old node label not recorded")
         a = dict(R._node_attr[i])
         a.pop("label", None)
-        ctx.require(nets.same(a, before["node_attr"][before["nodes"][i]]), "node attributes not preserved by relabelling")
+        b = dict(before["node_attr"][before["nodes"][i]])
+        b.pop("label", None)
+        ctx.require(nets.same(a, b), "node attributes not preserved by relabelling")
     for j in range(m):
         e0 = before["edges"][j]
         ctx.require(nets.same(R._edge_attr[j].get("label"), e0), "old edge label not recorded")
